@@ -677,6 +677,59 @@ def gen_globals():
     return out
 
 
+ITER_CALLS = {'list', 'tuple', 'sorted', 'next', 'iter', 'permutations', 'combinations', 'chain', 'map', 'filter', 'any', 'all', 'min', 'max',
+              'sum', 'set', 'frozenset', 'zip', 'enumerate', 'dict'}
+
+
+def iteration_sites():
+    out = []
+    for root, _, files in os.walk(PKG):
+        for f in sorted(files):
+            if not f.endswith(".py"):
+                continue
+            path = os.path.join(root, f)
+            rel = os.path.relpath(path, PKG)
+            tree = ast.parse(open(path, encoding="utf8").read())
+
+            def visit(n, stack):
+                if isinstance(n, (ast.FunctionDef, ast.ClassDef, ast.AsyncFunctionDef)):
+                    stack = stack + [n.name]
+                q = ".".join(stack) or "<module>"
+                if isinstance(n, ast.For):
+                    out.append((rel, q, "for", ast.unparse(n.iter)))
+                if isinstance(n, (ast.ListComp, ast.SetComp, ast.DictComp, ast.GeneratorExp)):
+                    for g in n.generators:
+                        out.append((rel, q, "comp", ast.unparse(g.iter)))
+                if isinstance(n, ast.Starred) and isinstance(n.ctx, ast.Load):
+                    out.append((rel, q, "star", ast.unparse(n.value)))
+                if isinstance(n, ast.Call):
+                    fn = n.func.id if isinstance(n.func, ast.Name) else (n.func.attr if isinstance(n.func, ast.Attribute) else None)
+                    if fn in ITER_CALLS or fn in ("join", "extend", "update", "from_iterable"):
+                        for a in n.args:
+                            if not isinstance(a, (ast.Constant, ast.Lambda, ast.Starred, ast.GeneratorExp, ast.ListComp, ast.SetComp, ast.DictComp)):
+                                out.append((rel, q, "call:" + fn, ast.unparse(a)))
+                for c in ast.iter_child_nodes(n):
+                    visit(c, stack)
+            visit(tree, [])
+    return sorted(set(out))
+
+
+def gen_itersites():
+    """whole package: every iteration site must be in the reviewed table harness/iter_sites.json (fail-closed)"""
+    import json
+    table = json.load(open(os.path.join(os.path.dirname(os.path.abspath(__file__)), "iter_sites.json")))["sites"]
+    known = {(t["file"], t["function"], t["kind"], t["expr"]): t for t in table}
+    found = iteration_sites()
+    new = [x for x in found if x not in known]
+    if new:
+        raise Unsupported("unreviewed iteration site(s): " + repr(new[:4]))
+    sets = sorted({f"{t['file']}:{t['function']}:{t['expr']}" for k, t in known.items() if t["class"] == "set" and k in set(found)})
+    out = HEADER.format(src="the whole package (iteration sites)")
+    out += f"Definition n_sites : nat := {len(found)}.\n"
+    out += "Definition set_sites : list str := [\n  " + ";\n  ".join(coq_str(x) for x in sets) + "].\n"
+    return out
+
+
 GENERATORS = {
     "Limits": gen_limits,
     "Labels": gen_labels,
@@ -684,6 +737,7 @@ GENERATORS = {
     "StrReg": gen_strreg,
     "Cli": gen_cli,
     "Globals": gen_globals,
+    "IterSites": gen_itersites,
 }
 
 
